@@ -471,6 +471,11 @@ impl DefragQueue {
         let frame_index = match frame.header.is_last() {
             // Operation only on the last frame
             true => {
+                // A second LAST frame must not change the announced size of the packet.
+                if self.final_packet_size.is_some() {
+                    return Err(DefragmentInsertError::Duplicate(frame.header));
+                }
+
                 // If we receive the last frame, we know the final packet size.
                 let final_packet_size = frame.header.frame_offset as usize + frame.fragment.len();
                 self.final_packet_size = Some(final_packet_size);
@@ -571,8 +576,35 @@ impl DefragQueue {
             // because final_packet_size <= MAX_PACKET_SIZE
             // and     frame_window_size >= MIN_PAYLOAD_SIZE
 
+            // The LAST frame must be the frame with index expected_frames - 1 (its fragment is
+            // neither empty nor longer than a frame window) and no middle frame received so far
+            // may lie at or beyond it; otherwise counting frames does not imply full coverage.
+            let last_index = last_frame_offset as usize / frame_window_size;
+            let stray_middle_frames = (last_index..MAX_FRAMES - 1).any(|i| {
+                self.recv_mask[i / BITMASK_ENTRY_BITS] & (1 << (i % BITMASK_ENTRY_BITS)) != 0
+            });
+            if last_index + 1 != expected_frames || stray_middle_frames {
+                self.idle = true;
+                return Err(DefragmentInsertError::InvalidHeaderValue(
+                    frame.header,
+                    "last_frame_inconsistent_with_middle_frames",
+                ));
+            }
+
             self.expected_frames = Some(expected_frames);
         };
+
+        // Middle frames must lie before the LAST frame
+        if let Some(expected_frames) = self.expected_frames
+            && !frame.header.is_last()
+            && frame_index >= expected_frames - 1
+        {
+            self.idle = true;
+            return Err(DefragmentInsertError::InvalidHeaderValue(
+                frame.header,
+                "frame_beyond_last_frame",
+            ));
+        }
 
         let mask_index = frame_index / BITMASK_ENTRY_BITS;
         let frame_bit_position = frame_index % BITMASK_ENTRY_BITS;
